@@ -111,6 +111,17 @@ func (op MultiStoreProofOp) Run(args [][]byte) ([][]byte, error) {
 	value := args[0]
 	root := op.Proof.ComputeRootHash()
 
+	// The root hash is computed over a map keyed by store name, in which a later
+	// entry replaces an earlier one, while the loop below picks the first entry:
+	// a store named twice would be checked against a hash that is not in the root.
+	seen := make(map[string]bool, len(op.Proof.StoreInfos))
+	for _, si := range op.Proof.StoreInfos {
+		if seen[si.Name] {
+			return nil, errors.Errorf("store %v appears more than once in multistore proof", si.Name)
+		}
+		seen[si.Name] = true
+	}
+
 	for _, si := range op.Proof.StoreInfos {
 		if si.Name == string(op.Key) {
 			if bytes.Equal(value, si.Core.CommitID.Hash) {
